@@ -3,6 +3,8 @@ mod c08;
 mod c16;
 mod coqfmt;
 mod model;
+mod ising;
+mod steps;
 mod tape;
 
 use std::io::Write;
@@ -82,6 +84,7 @@ fn main() {
         "c16" => c16::run(&args),
         "c08" => c08::run(&args),
         "c08debug" => c08::debug(&args),
+        "steps" => steps::run(&args),
         other => {
             eprintln!("unknown command {}", other);
             std::process::exit(2);
